@@ -79,6 +79,21 @@ def record_from_vector(ptn, rng, d, n, tol, kind):
         for _ in range(n):
             v = np.kron(v, rng.normal(size=d))
         v = v + 10.0 ** (-int(rng.integers(6, 12))) * rng.normal(size=dim)
+    elif kind == 'degenerate':     # exactly repeated Schmidt values at some cut: Bell / GHZ-like / maximally entangled / diag(2,1,1)
+        v = np.zeros(dim)
+        k = int(rng.integers(0, 3))
+        if k == 0 or n < 2:
+            for a in range(d):                                  # sum_a |a a ... a>
+                v[sum(a * d**j for j in range(n))] = 1.0
+        elif k == 1:
+            half = n // 2                                       # maximally entangled across the middle cut
+            for a in range(d**half):
+                v[a * d**(n - half) + (a % d**(n - half))] = 1.0
+        else:
+            for a in range(d):
+                v[sum(a * d**j for j in range(n))] = 2.0 if a == 0 else 1.0
+        if rng.random() < 0.5:
+            v = v * np.exp(1j * 0.3)
     else:
         v = rng.normal(size=dim) + 1j * rng.normal(size=dim)
     if rng.random() < 0.5:
@@ -216,7 +231,7 @@ def run(ctx):
     for _ in range(ctx.pick(200, 4000)):
         d, n = int(rng.choice([1, 2, 2, 3])), int(rng.choice([1, 2, 3, 4, 5]))
         tol = 0.0 if rng.random() < 0.4 else float(rng.integers(1, 1000)) / (1009 * n)
-        kind = str(rng.choice(['int', 'product', 'lowrank', 'generic', 'weak', 'weak']))
+        kind = str(rng.choice(['int', 'product', 'lowrank', 'generic', 'weak', 'weak', 'degenerate']))
         add(dict(kind='from_vector', d=d, n=n, tol=tol, vkind=kind), record_from_vector(ptn, rng, d, n, tol, kind))
     ctx.notes['local_steps'] = sum(1 for tr in traces for r in tr if r['ev'] == 'step')
     ctx.notes['firstbond_events'] = sum(1 for tr in traces for r in tr if r['ev'] == 'firstbond')
